@@ -322,8 +322,12 @@ def rule_step_bounded_accumulation(col, facts):
     f = facts.fn(PF + "binary::parse_u64_digits")
     # step is the pointer parameter whose pointee is decremented
     step_arg = None
+    locs = f.mir.get("locals", [])
+    cands = [l for l in range(1, f.argc + 1) if l < len(locs) and "usize" in locs[l]]
+    if len(cands) == 1:
+        step_arg = cands[0]            # the one `&mut usize` parameter, whatever it is called
     for l, nm in f.names.items():
-        if nm == "step" and l <= f.argc:
+        if step_arg is None and nm == "step" and l <= f.argc:
             step_arg = l
     if step_arg is None:
         for b in f.blocks:
